@@ -7,7 +7,7 @@ RULE = ("the real ChunkStore with persistence on a scratch directory (wipe-on-ex
         "destroyed, 0..3 chunk files with arbitrary content are dropped into the directory under any key (everything an "
         "interrupted store or wipe can leave behind: empty, zeroed, partial, full, stale content), and a new ChunkStore is "
         "constructed on the directory. After every operation the directory is listed with file contents; a foreign file and a "
-        "sub-directory named *.chunk stand by. 'crash' cases run a put (new key, overwrite) or a sweep in a forked child that is "
+        "sub-directory named *.chunk stand by. Stores repeat the bytes already held under the key (once, twice, three times in a row) in 40% of the overwrites.  'crash' cases run a put (new key, overwrite) or a sweep in a forked child that is "
         "killed at its N-th file-system call, for every N, each time followed by a new instance and a listing of EVERYTHING in the directory. Oracle (independent of the model, a python reference of which chunks are "
         "held): with wipe-on-expiry, a chunk file exists only for a key whose latest put is still held and holds exactly those "
         "bytes; after a sweep no file belongs to an expired chunk (also when a lookup noticed the expiry first); after a "
@@ -46,16 +46,31 @@ def generate(rng, tier):
         else:
             ints += [0, 3, 1] + lp(bytes(rng.randrange(256) for _ in range(6000))) + [3, 2000, 5, 2]
         cases.append({"ints": ints, "tag": "crash-" + which})
+    # identical bytes stored again under a key whose file is already on disk (1, 2, 3 times), then the chunk expires and is swept
+    for reps in (1, 2, 3):
+        for size in (1, 3000):
+            data = bytes(rng.randrange(256) for _ in range(size))
+            ints = [1, 60]
+            for _ in range(reps + 1):
+                ints += [0, 2, 2] + lp(data)
+            ints += [0, 3, 2] + lp(b"other") + [0, 3, 2] + lp(b"bytes") + [3, 2500, 2, 1, 2, 3, 100, 2]
+            cases.append({"ints": ints, "tag": "identical-restore"})
     for _ in range(n):
         wipe = 0 if rng.random() < 0.2 else 1
         dflt = rng.choice([1, 3, 60])
         ints = [wipe, dflt]
+        last = {}
         for _ in range(rng.choice([4, 10, 18, 30])):
             r = rng.random()
             k = rng.randrange(6)
             if r < 0.35:
                 data = bytes(rng.randrange(256) for _ in range(rng.choice([0, 1, 5, 200])))
-                ints += [0, k, rng.choice([0, 1, 2, 5])] + lp(data)
+                again = k in last and rng.random() < 0.4
+                if again:
+                    data = last[k]          # the same bytes stored again under the same key (once, twice, three times in a row)
+                last[k] = data
+                for _ in range(rng.choice([1, 1, 2, 3]) if again else 1):
+                    ints += [0, k, rng.choice([0, 1, 2, 5])] + lp(data)
             elif r < 0.5:
                 ints += [1, k]
             elif r < 0.65:
